@@ -228,9 +228,13 @@ func registerMoreModels(u *Unit) {
 		func(fx *FX, st *State, c *CallCtx) Val {
 			return fx.havoc("errtext", types.Typ[types.String], tTrue)
 		})
-	u.reg("time.Now", "returns some instant", nil,
+	u.reg("time.Now", "returns some instant at or after the Unix epoch and before 2^62 s (the server clock is sane)", nil,
 		func(fx *FX, st *State, c *CallCtx) Val {
-			return fx.havoc("now", c.C.Signature().Results().At(0).Type(), tTrue)
+			r := fx.havoc("now", c.C.Signature().Results().At(0).Type(), tTrue)
+			ts := flatten(r)
+			us := app(SInt, "unixsec", ts[0], ts[1])
+			fx.assume(tTrue, and(le(num(0), us), lt(us, T{"4611686018427387904", SInt})))
+			return r
 		})
 }
 
